@@ -1,0 +1,10 @@
+//go:build !verif
+// +build !verif
+
+// Package verifhook provides named points at which a verification harness
+// can delay or block a goroutine. Without the "verif" build tag, Point is
+// an empty function.
+package verifhook
+
+// Point does nothing.
+func Point(name string) {}
